@@ -4,7 +4,7 @@
    the byte encoding of the reference's commands: the relation R, one lemma per command, composition. *)
 From Coq Require Import ZArith List Bool Lia ZifyBool.
 Import ListNotations.
-From Urwid Require Import PyBase PyList vterm_csi_gen VTerm VT100Ref VTermRefine VTermListFacts VTermProofs VTermParse VTermSim.
+From Urwid Require Import PyBase PyList vterm_csi_gen VTerm VT100Ref VTermRefine VTermListFacts VTermProofs VTermParse VTermSim VTermSimB VTermSimC VTermSimD VTermSimF VTermSimSgr.
 Open Scope Z_scope.
 
 Arguments Z.mul : simpl never.
